@@ -3,12 +3,14 @@ PROPS["C14"] = dict(
     technique="model-based PBT (rapid) against a slice model + bounded-exhaustive op-list enumeration",
     rule="case = (capacity, op list over Write/Read/ReadN/Skip/At/Clear); exhaustive over the full op alphabet "
          "(ReadN len 0..cap+2, Skip -1..cap+2 and MaxInt, At -1..cap+1 and MaxInt) for capacities 0..3(4) to the depth in exhaustive_parts, rapid lists "
-         "for capacities 0..300 with arguments that also include +-2^31, +-2^40, MaxInt, MinInt; non-trivial = some op spanned the wrap point of the backing array, or Write hit Len==Cap, "
+         "for capacities 0..300 with arguments that also include +-2^31, +-2^40, MaxInt, MinInt; a shapes unit runs the same contract with other element types: strings and structs whose text looks like a format directive, and a "
+         "zero-size element type with capacities up to MaxInt-1 (which only such a type can have); non-trivial = some op spanned the wrap point of the backing array, or Write hit Len==Cap, "
          "or Read hit empty; distinct = FNV hash of (capacity, op list)",
     assumptions=["slice model of a bounded FIFO written from the RingBuffer interface comments and the C14 statement",
                  "cleared-slot invariant read through the overlay accessor VerifRingSlots (skipped if the hook no longer compiles)"],
     units=[
         dict(name="exhaustive", run="^TestC14Exhaustive$", shards=(4, 16), timeout=(200, 1500)),
+        dict(name="shapes", run="^TestC14Shapes$", checks=(3000, 30000), shards=(1, 8), timeout=(200, 1500)),
         dict(name="rapid", run="^TestC14Rapid$", checks=(30000, 60000), shards=(2, 16), timeout=(200, 1500)),
     ],
 )
